@@ -294,18 +294,22 @@ Fixpoint jcompact (instr esc : bool) (b : bytes) : bytes :=
   end.
 
 (* ---------- the writer side ----------
-   An io.Writer that accepts `room` more bytes and then fails (the pipe to a peer that
-   died / closed its end); None = never fails.  A Write that does not fit delivers what
-   fits and returns an error ("n < len(p), err != nil"). *)
-Record sink := mk_sink { k_out : bytes; k_room : option nat }.
+   An io.Writer that accepts `room` more bytes and then fails; None = never fails.  A Write that
+   does not fit delivers what fits and returns an error ("n < len(p), err != nil").  What happens
+   AFTER the failure is the writer's business, both are legal io.Writers:
+     k_heals = false : it keeps failing (the pipe to a peer that died / closed its end);
+     k_heals = true  : it failed ONCE (a transient error) and accepts everything from then on. *)
+Record sink := mk_sink { k_out : bytes; k_room : option nat; k_heals : bool }.
 Inductive wr := WOk (k : sink) | WErr (k : sink).
+
+Definition after_failure (heals : bool) : option nat := if heals then None else Some 0%nat.
 
 Definition sink_write (p : bytes) (k : sink) : wr :=
   match k_room k with
-  | None => WOk (mk_sink (k_out k ++ p) None)
+  | None => WOk (mk_sink (k_out k ++ p) None (k_heals k))
   | Some r =>
-    if (length p <=? r)%nat then WOk (mk_sink (k_out k ++ p) (Some (r - length p)%nat))
-    else WErr (mk_sink (k_out k ++ firstn r p) (Some 0%nat))
+    if (length p <=? r)%nat then WOk (mk_sink (k_out k ++ p) (Some (r - length p)%nat) (k_heals k))
+    else WErr (mk_sink (k_out k ++ firstn r p) (after_failure (k_heals k)) (k_heals k))
   end.
 
 (* writeDelimitedMessageRaw = WriteDelimitedMessage after proto.Marshal = protoEncoder.Encode:
@@ -336,9 +340,13 @@ Fixpoint write_stream (enc : bytes -> sink -> wr) (ms : list bytes) (k : sink) :
     end
   end.
 
-Definition sink_of (room : option nat) : sink := mk_sink [] room.
+Definition sink_of_h (heals : bool) (room : option nat) : sink := mk_sink [] room heals.
+Definition wire_of_h (heals : bool) (enc : bytes -> sink -> wr) (ms : list bytes) (room : option nat) : bytes :=
+  k_out (snd (write_stream enc ms (sink_of_h heals room))).
+(* the writer that keeps failing: the pipe to a peer that is gone *)
+Definition sink_of (room : option nat) : sink := sink_of_h false room.
 Definition wire_of (enc : bytes -> sink -> wr) (ms : list bytes) (room : option nat) : bytes :=
-  k_out (snd (write_stream enc ms (sink_of room))).
+  wire_of_h false enc ms room.
 
 (* ---------- case decoding / result encoding (extracted glue) ---------- *)
 Definition un_tail (s : sx) : option tail_t :=
@@ -384,6 +392,14 @@ Definition run_c09_stalls (args : list sx) : sx :=
                                    ret (sx_read_all mx s)
                                  | _ => None end) cs;
     ret (L cs)
+  | _ => None end).
+
+(* (max data sched eager typed) -> one peer that stalls after the data; `typed` only selects the Go entry
+   point (ReadDelimitedMessage instead of readDelimitedMessageRaw), the outcome is the same *)
+Definition run_c09_stall (args : list sx) : sx :=
+  or_bad (match args with
+  | [mx; d; sch; eg; ty] =>
+    do mx <- un_N mx; do s <- un_src d sch eg (I 1%Z); do _ <- un_bool ty; ret (sx_read_all mx s)
   | _ => None end).
 
 (* (data sched eager tail) -> ((messages) final), through codec.NewDecoder(r).DecodeNext *)
@@ -436,13 +452,14 @@ Definition un_room (s : sx) : option (option nat) :=
 Definition sx_written (r : nat * bool * sink) : sx :=
   let '(n, failed, k) := r in L [B (k_out k); sx_nat n; sx_bool failed].
 
-(* (messages room) -> (bytes-on-the-wire encodes-ok failed), through writeDelimitedMessageRaw /
-   WriteDelimitedMessage / protoEncoder.Encode on a writer that fails after `room` bytes *)
+(* (messages room heals) -> (bytes-on-the-wire encodes-ok failed), through writeDelimitedMessageRaw /
+   WriteDelimitedMessage / protoEncoder.Encode on a writer that fails after `room` bytes and then
+   either keeps failing (heals = 0) or accepts everything again (heals = 1) *)
 Definition run_c09_wsink (args : list sx) : sx :=
   or_bad (match args with
-  | [ms; room] =>
-    do ms <- un_listof un_B ms; do room <- un_room room;
-    ret (sx_written (write_stream write_delimited ms (sink_of room)))
+  | [ms; room; heals] =>
+    do ms <- un_listof un_B ms; do room <- un_room room; do heals <- un_bool heals;
+    ret (sx_written (write_stream write_delimited ms (sink_of_h heals room)))
   | _ => None end).
 
 (* (dir max messages room sched eager) -> (encodes-ok failed ((messages) final)): what one side
@@ -485,6 +502,7 @@ Definition c09_table : list (bytes * (list sx -> sx)) :=
   [ (bs "c09.raw", run_c09_read);
     (bs "c09.read", run_c09_read);
     (bs "c09.stalls", run_c09_stalls);
+    (bs "c09.stall", run_c09_stall);
     (bs "c09.dec", run_c09_dec);
     (bs "c09.write", run_c09_write);
     (bs "c09.json", run_c09_json);
